@@ -79,6 +79,7 @@ type c10Case struct {
 	Genesis       []c10Csr  `json:"genesis"`
 	Params        c10Params `json:"params"`
 	Collector     string    `json:"collector"`                // initial funding of the fee collector
+	ModulePrefund string    `json:"module_prefund,omitempty"` // coins sitting in the csr module account before the history ("afterwards the module account's balance is unchanged" must hold for a non-empty account too)
 	ProbeIDs      []string  `json:"probe_ids"`                // NFT ids whose Turnstile balance is read after every step
 	RealContracts int       `json:"real_contracts,omitempty"` // CSRSmartContracts deployed for real transactions
 	Ops           []c10Op   `json:"ops"`
@@ -487,6 +488,12 @@ func c10Start(e *Env, f *c10Fix, kase *c10Case) *c10Live {
 		prefix.NewStore(ctx.KVStore(f.a.GetKey(csrtypes.StoreKey)), csrtypes.KeyPrefixAddrs).Delete(csrtypes.TurnstileKey)
 	}
 	c10Fund(f, ctx, bigOf(kase.Collector))
+	if kase.ModulePrefund != "" && bigOf(kase.ModulePrefund).Sign() > 0 {
+		coins := sdk.NewCoins(sdk.NewCoin(f.denom, sdkmath.NewIntFromBigInt(bigOf(kase.ModulePrefund))))
+		if err := f.a.BankKeeper.MintCoins(ctx, csrtypes.ModuleName, coins); err != nil {
+			panic(err)
+		}
+	}
 	lv.obs = c10Observe(f, ctx, lv.probe)
 	lv.initTerm = lv.obs.term(&lv.tab)
 	return lv
@@ -848,6 +855,12 @@ func runC10(e *Env) {
 		kase.Params = c10Params{Enable: true, Share: s}
 		e.Stats.Count("share-set:" + k)
 		kase.Collector = new(big.Int).Sub(e.Mag(80), big.NewInt(1)).String()
+		if e.Chance(0.5) {
+			kase.ModulePrefund = e.Mag(70).String()
+			e.Stats.Count("module-account:prefunded")
+		} else {
+			e.Stats.Count("module-account:empty")
+		}
 		kase.NoTurnstile = e.Chance(0.03)
 		lv := c10Start(e, f, &kase)
 		// genesis contracts hold code, as registered contracts do
